@@ -47,7 +47,7 @@ static void base_build(uint64_t b, struct kx_set* s)
 
 /* ---------------- presentations ---------------- */
 enum { P_WRAP = 0, P_BLANK = 7, P_PAD = 9, P_GAP1 = 12, P_GAP2 = 12 + 108, P_MOSTLY = 12 + 108 + 27, P_CLU = P_MOSTLY + 3, P_MSF = P_CLU + 6,
-       P_SPLIT = P_MSF + 6, P_STDIN = P_SPLIT + 12, P_LATE = P_STDIN + 4, P_NONL = P_LATE + 6, P_CRLF = P_NONL + 3, P_END = P_CRLF + 3 };
+       P_SPLIT = P_MSF + 6, P_STDIN = P_SPLIT + 12, P_LATE = P_STDIN + 4, P_NONL = P_LATE + 6, P_CRLF = P_NONL + 3, P_TAB = P_CRLF + 3, P_END = P_TAB + 4 };
 static const int WRAPS[7] = {1, 2, 3, 59, 60, 61, 0};
 static const char GAPSYM[3] = {'-', '.', '~'};
 static const int RUNLEN[3] = {1, 2, 100};
@@ -195,8 +195,11 @@ static const char* present_name(int p)
                 snprintf(b, sizeof b, "gap characters ('%c') only in the last %d record(s), ragged FASTA", GAPSYM[q % 3], q / 3 ? 8 : 1);
         }else if(p < P_CRLF){
                 snprintf(b, sizeof b, "%s file whose last line has no terminating newline", (const char*[]){"FASTA", "Clustal", "MSF"}[p - P_NONL]);
-        }else{
+        }else if(p < P_TAB){
                 snprintf(b, sizeof b, "%s file with CR LF line ends", (const char*[]){"FASTA", "Clustal", "MSF"}[p - P_CRLF]);
+        }else{
+                snprintf(b, sizeof b, "tab padding: %s", (const char*[]){"FASTA sequence lines indented by a tab", "a tab in the middle of FASTA sequence lines",
+                         "Clustal with a tab between name and residues", "MSF with a tab between name and residues"}[p - P_TAB]);
         }
         return b;
 }
@@ -362,6 +365,41 @@ static int present(const struct kx_set* s, int p, struct files* f)
                         }
                 }
                 write_fasta_rows(s, 0, n, 60, f->path[0]);
+        }else if(p >= P_TAB){
+                int q = p - P_TAB;
+                size_t o = 0;
+                int b;
+                if(q == 0 || q == 1){
+                        for(i = 0; i < n; i++){
+                                int half = s->len[i] / 2;
+                                if(q == 0){
+                                        o += (size_t)sprintf(TXT + o, ">%s\n\t%s\n", s->name[i], s->seq[i]);
+                                }else{
+                                        o += (size_t)sprintf(TXT + o, ">%s\n%.*s\t%s\n", s->name[i], half, s->seq[i], s->seq[i] + half);
+                                }
+                        }
+                }else{
+                        int len;
+                        equalise(ROWS, n, q == 3 ? '.' : '-');
+                        len = (int)strlen(ROWS[0]);
+                        if(q == 3){
+                                o += (size_t)sprintf(TXT + o, "!!NA_MULTIPLE_ALIGNMENT 1.0\n\n  t.msf  MSF: %d  Type: N  Check: 1 ..\n\n", len);
+                                for(i = 0; i < n; i++){
+                                        o += (size_t)sprintf(TXT + o, " Name: %s Len: %d  Check: 1  Weight:  1.00\n", s->name[i], len);
+                                }
+                                o += (size_t)sprintf(TXT + o, "\n//\n\n");
+                        }else{
+                                o += (size_t)sprintf(TXT + o, "CLUSTAL W (1.83) multiple sequence alignment\n\n");
+                        }
+                        for(b = 0; b < len || b == 0; b += 60){
+                                for(i = 0; i < n; i++){
+                                        o += (size_t)sprintf(TXT + o, "%s\t%.60s\n", s->name[i], ROWS[i] + b);
+                                }
+                                o += (size_t)sprintf(TXT + o, "\n");
+                        }
+                }
+                TXT[o] = 0;
+                put(f->path[0], TXT);
         }else if(p >= P_CRLF){
                 int q = p - P_CRLF;
                 static char crlf[1 << 18];
@@ -523,7 +561,7 @@ int vh_case(uint64_t id, int tier)
                 vh_fail(sig, "accepted as bare FASTA, rejected when presented as: %s", present_name(p));
         }else if(gl != wl || memcmp(got, want, wl) != 0){
                 char sig[80];
-                const char* cls = p < P_BLANK ? "wrap" : (p < P_PAD ? "blank-lines" : (p < P_GAP1 ? "padding" : (p < P_CLU ? "gaps" : (p < P_MSF ? "clustal" : (p < P_SPLIT ? "msf" : (p < P_STDIN ? "split-files" : (p < P_LATE ? "stdin" : (p < P_NONL ? "late-gaps" : (p < P_CRLF ? "no-final-newline" : "crlf")))))))));
+                const char* cls = p < P_BLANK ? "wrap" : (p < P_PAD ? "blank-lines" : (p < P_GAP1 ? "padding" : (p < P_CLU ? "gaps" : (p < P_MSF ? "clustal" : (p < P_SPLIT ? "msf" : (p < P_STDIN ? "split-files" : (p < P_LATE ? "stdin" : (p < P_NONL ? "late-gaps" : (p < P_CRLF ? "no-final-newline" : (p < P_TAB ? "crlf" : "tab"))))))))));
                 snprintf(sig, sizeof sig, "sem:presentation-changes-result.%s", cls);
                 vh_fail(sig, "%s: output differs from the bare-FASTA run: got %.120s ... want %.120s", present_name(p), got, want);
         }else{
